@@ -11,6 +11,7 @@ pub mod c06;
 pub mod c07;
 pub mod c09;
 pub mod common;
+pub mod matrix;
 pub mod real;
 
 pub enum Budget {
@@ -55,6 +56,17 @@ pub fn pick_sched(rng: &mut Rng) -> Sched {
 }
 
 pub fn plan(prop: &str, tier: Tier, seed: u64) -> Option<Vec<Campaign>> {
+    let mut v = plan_inner(prop, tier, seed)?;
+    // the exhaustive header x resource x method matrix (gen/matrix.rs)
+    for p in ["C02", "C04", "C05", "C09", "C10", "C13"] {
+        if p == prop {
+            v.push(matrix::campaign(p, seed));
+        }
+    }
+    Some(v)
+}
+
+fn plan_inner(prop: &str, tier: Tier, seed: u64) -> Option<Vec<Campaign>> {
     match prop {
         "C01" => Some(c01::plan(tier, seed)),
         "C02" => Some(c02::plan_c02(tier, seed)),
